@@ -51,17 +51,52 @@ func genC13(t *rapid.T) interface{} {
 	excludedKnown = 0
 	if rapid.IntRange(0, 3).Draw(t, "sequential") == 0 {
 		sc := genScenario(t, &profC13Seq)
+		c13Unterminate(t, sc)
 		vstat.Excluded(excludedKnown)
 		return sc
 	}
 	sc := genConcurrent(t, &profC13)
-	// a few late writes after Wait
+	// a few late writes after Wait (an empty one among them)
 	n := rapid.IntRange(0, 3).Draw(t, "nlatewrites")
 	for k := 0; k < n; k++ {
-		sc.Late = append(sc.Late, engine.Step{Op: "write", Text: fmt.Sprintf("wL.%d:after wait\n", k)})
+		txt := fmt.Sprintf("wL.%d:after wait\n", k)
+		if rapid.IntRange(0, 3).Draw(t, "lateempty") == 0 {
+			txt = ""
+		}
+		sc.Late = append(sc.Late, engine.Step{Op: "write", Text: txt})
 	}
+	c13Unterminate(t, sc)
 	vstat.Excluded(excludedKnown)
 	return sc
+}
+
+// c13Unterminate strips the trailing newline from the very last Write of the
+// program now and then (a prompt, a summary line printed with Fprint): its
+// bytes must still come out, glued to whatever follows.
+func c13Unterminate(t *rapid.T, sc *engine.Scenario) {
+	if rapid.IntRange(0, 4).Draw(t, "unterminated") != 0 {
+		return
+	}
+	// the last write step of the last block / of the sequential tail
+	var last *engine.Step
+	var walk func(sts []engine.Step)
+	walk = func(sts []engine.Step) {
+		for i := range sts {
+			if sts[i].Op == "write" && len(sts[i].Par) == 0 {
+				last = &sts[i]
+			}
+		}
+	}
+	if n := len(sc.Steps); n > 0 {
+		if st := &sc.Steps[n-1]; len(st.Par) == 1 {
+			walk(st.Par[0])
+		} else if len(st.Par) == 0 {
+			walk(sc.Steps)
+		}
+	}
+	if last != nil && strings.HasSuffix(last.Text, "\n") && strings.HasPrefix(last.Text, "w") && !strings.HasPrefix(last.Text, "wR.") {
+		last.Text = strings.TrimSuffix(last.Text, "\n")
+	}
 }
 
 func runC13(ci interface{}) Result {
@@ -223,7 +258,7 @@ func runC13(ci interface{}) Result {
 			r.Err, r.Kind = fmt.Errorf("Write after Wait returned (%d, %v), want (0, ErrDone)", w.N, w.Err), "late-write"
 			return r
 		}
-		if bytes.Contains(all, []byte(w.Text)) {
+		if w.Text != "" && bytes.Contains(all, []byte(w.Text)) {
 			r.Err, r.Kind = fmt.Errorf("Write after Wait emitted %q", w.Text), "late-write"
 			return r
 		}
@@ -264,6 +299,12 @@ func runC13(ci interface{}) Result {
 	}
 	if strings.Contains(fmt.Sprint(sc.Late), "write") {
 		r.Classes = append(r.Classes, "late-write")
+	}
+	for i := range tr.Writes[:inProgram] {
+		if w := &tr.Writes[i]; w.Err == nil && !strings.HasSuffix(w.Text, "\n") {
+			r.Classes = append(r.Classes, "unterminated-write")
+			break
+		}
 	}
 	r.Nontrivial = len(ok) >= 1 && (overlapped || errdone)
 	return r
